@@ -22,7 +22,9 @@ Record xt := mkXT {
   xt_pyclass : string;       (* name of the table class in the SQLAlchemy output *)
   xt_invalid : list string;
   xt_sm_text : list bool;
-  xt_cfg_lines : list (list string) }.   (* the configuration-dependent lines of the SeaORM entity rendered under the
+  xt_cfg_lines : list (list string);
+  xt_sm_ann : list string;      (* per column, in order: the annotation of its SQLModel field (text between ": " and " = Field(") *)
+  xt_sa_ann : list string }.    (* per column: the T of `Mapped[T]` in the SQLAlchemy output *)   (* the configuration-dependent lines of the SeaORM entity rendered under the
                                             case's drawn configuration: every DISTINCT list seen over the repeated renders *)     (* per column, in order: does its SQLModel Field(...) line wrap the default in text("...")? *)   (* O-C17's reports "invalid-<kind>:<name>" for the SeaORM declarations of this table *)
 
 Record exp_case := mkXC { x_schema : schema; x_cfg : sea_config; x_obs : list xt }.
@@ -43,13 +45,23 @@ Definition imports_check (model : list string) (impl : list (list string)) : boo
 Definition ascii_only (s : string) : bool := all_chars (fun a => negb (non_ascii a)) s.
 
 (* sub-checks: 1 SeaORM declarations, 2 SQLAlchemy import block, 3 SQLModel import block, 4 Python class name,
-   5 SQLModel: which columns wrap their default in text(...), 6 SeaORM lines that depend on the export configuration *)
+   5 SQLModel: which columns wrap their default in text(...), 6 SeaORM lines that depend on the export configuration,
+   7 / 8 the annotation (Python type, Optional[...] iff nullable) of every column in the SQLModel / SQLAlchemy output *)
+Fixpoint ann_list_check (cols : list column_def) (anns : list string) : bool :=
+  match cols, anns with
+  | [], [] => true
+  | c :: cr, a :: ar => (annotation_check c a && ann_list_check cr ar)%bool
+  | _, _ => false
+  end.
+
 Definition check_table (cfg : sea_config) (s : schema) (t : table_def) (o : xt) : list nat :=
   (if sea_check s t (xt_sea o) then [] else [1%nat])
   ++ (if imports_check (sqlalchemy_imports id_oracle id_oracle t) (xt_sa o) then [] else [2%nat])
   ++ (if imports_check (sqlmodel_imports id_oracle t) (xt_sm o) then [] else [3%nat])
   ++ (if (negb (ascii_only (t_name t)) || String.eqb (py_pascal_case (t_name t)) (xt_pyclass o))%bool then [] else [4%nat])
   ++ (if list_eqb Bool.eqb (map sqlmodel_column_uses_text (t_columns t)) (xt_sm_text o) then [] else [5%nat])
+  ++ (if ann_list_check (t_columns t) (xt_sm_ann o) then [] else [7%nat])
+  ++ (if ann_list_check (t_columns t) (xt_sa_ann o) then [] else [8%nat])
   ++ (if (negb (Nat.eqb (List.length (xt_cfg_lines o)) 0)
           && forallb (list_eqb String.eqb (config_lines cfg t)) (xt_cfg_lines o))%bool then [] else [6%nat]).
 
